@@ -18,7 +18,8 @@ CFG = {
         "The models are tied to the current source on every "
         "run by a differential check: generated histories (exhaustive deadline-1/0/+1 x operation-kind scripts, random histories "
         "with clock jumps onto deadlines, LRU pressure, out-of-domain ttls/sizes/clocks, goroutines racing on one key of the memory "
-        "cache, callers racing on one key of the redis adapter with their commands interleaved by the fake) run on the "
+        "cache, goroutines hammering Remove / Remove+Set on one key followed at quiescence by a deterministic history (c05_hammer_collapses), "
+        "a redis shared with many foreign keys whose SCAN pages like redis (COUNT raw keys, MATCH afterwards, empty pages), callers racing on one key of the redis adapter with their commands interleaved by the fake) run on the "
         "real caches under a virtual clock, a real go-redis client whose process hook interprets the actual command stream, and "
         "Coq evaluates case_accept / case_holds on every observed case. Proof is the right level: the quantifier is over "
         "unboundedly many histories and clock positions; the code is two small sequential state machines."
@@ -29,7 +30,7 @@ CFG = {
         "the monitor is not evaluated; the model still follows Go's wrapping and is compared by case_accept); redis agreement needs "
         "0 < ttl <= 9223372036 (nanosecond count fits int64). Not modelled: the value returned together with a not-found error, "
         "aliasing of the caller's value slice, real redis (a model of the seven commands is trusted; its clock has second resolution), "
-        "SCAN paging. Concurrency: every public method of ttlMemCache is one critical section (lint, checked on every run), so the "
+        "redis' own hash-table iteration order (the fake pages in a fixed pseudo-random order). Concurrency: every public method of ttlMemCache is one critical section (lint, checked on every run), so the "
         "sequential theorems over histories are the concurrent ones; racing goroutines are additionally observed and replayed in a witness order "
         "(found by the untrusted Go reference, checked by Coq). The redis adapter's remove-after-get is one GETDEL; its update-ttl is GET followed by "
         "EXPIRE (two commands, not atomic - outside the racing clause of the property, which names remove-after-get; not raced by the harness). "
